@@ -17,6 +17,7 @@ rejected events (observed, not decided by the spec); the run is resumed at the n
 import json
 import os
 import re
+import time
 
 import vlib
 
@@ -48,6 +49,58 @@ GUARDS = [
     ("Signal", "MC_Signal_bug_skip_first.cfg", "LawCallExplained"),
     ("Signal", "MC_Signal_bug_fold_right.cfg", "LawCallExplained"),
 ]
+
+
+def tlc_run(module, cfg, **kw):
+    """vlib.tlc with a small heap, retried when the process was killed from outside (the box is
+    shared: the kernel's OOM killer takes the largest JVMs first)."""
+    kw.setdefault("xmx", "1500m")
+    for attempt in range(3):
+        try:
+            return vlib.tlc(module, cfg, **kw)
+        except vlib.Infra as e:
+            if "rc=-9" not in str(e) and "rc=137" not in str(e):
+                raise
+            vlib.log("TLC %s/%s was killed; retrying (%d)" % (module, cfg, attempt + 1))
+            time.sleep(15 * (attempt + 1))
+    return vlib.tlc(module, cfg, **kw)
+
+
+def mc_run(ctx, module, cfg, **kw):
+    """As vlib.tlc_mc (model check of the specification itself; failure = Infra), via tlc_run."""
+    r = tlc_run(module, cfg, **kw)
+    ok = r.rc == 0 and r.completed
+    ctx.mc_runs.append({"module": module, "cfg": cfg, "generated": r.generated, "distinct": r.distinct,
+                        "depth": r.depth, "wall_s": round(r.wall, 2), "ok": ok, "cmd": r.cmd, "simulate": None})
+    if not ok:
+        raise vlib.Infra("model check of %s/%s failed (spec-level, not a code verdict):\n%s" % (
+            module, cfg, "\n".join(r.out.splitlines()[-80:])))
+    vlib.log("MC %s/%s: %d generated, %d distinct, depth %d, %.1fs" % (module, cfg, r.generated, r.distinct, r.depth, r.wall))
+    return r
+
+
+def judge_file(ctx, path, nchunks=vlib.NCPU):
+    """As vlib.judge_trace (chunks at history boundaries, one single-worker TLC per chunk), via
+    tlc_run.  Returns the rejected events [{l, op, why}]."""
+    chunks = vlib.split_file(path, nchunks, boundary=lambda x: '"e":"reset"' in x)
+
+    def one(ch):
+        p, first = ch
+        r = tlc_run(TRACE_MODULE, TRACE_CFG, workers=1, env={"TRACE": p}, timeout=3000, tag=TRACE_MODULE + "_j", xmx="1g")
+        v = vlib._verdict_lines(r.out)
+        if "VERDICT" in v:
+            return [dict(b, l=b["l"] + first) for b in v["VERDICT"][-1]["bad"]], r.generated
+        if "STUCK" in v:
+            return [{"l": int(v["STUCK"][-1]) + first, "op": "?", "why": ["no-action-explains-event"]}], r.generated
+        raise vlib.Infra("trace judge gave no verdict on %s (rc=%d):\n%s" % (p, r.rc, "\n".join(r.out.splitlines()[-40:])))
+    res = vlib.parallel(one, chunks)
+    for p, _ in chunks:
+        try:
+            os.unlink(p)
+        except OSError:
+            pass
+    ctx.extra["trace_states"] = ctx.extra.get("trace_states", 0) + sum(g for _, g in res)
+    return sorted([b for bs, _ in res for b in bs], key=lambda b: b["l"])
 
 
 def build():
@@ -126,7 +179,7 @@ def judge_lines(ctx, lines, what, path):
             stop += 1
         with open(path, "w") as f:
             f.write("\n".join(lines[start:stop]) + "\n")
-        for b in vlib.judge_trace(ctx, TRACE_MODULE, TRACE_CFG, path, timeout=3000):
+        for b in judge_file(ctx, path):
             b = dict(b)
             b["l"] += start
             bad.append(b)
@@ -289,7 +342,7 @@ def model_check_jobs(ctx, thorough):
         runs += [("Ring", "MC_Ring_big.cfg"), ("Ring", "MC_Ring_huge.cfg"), ("Signal", "MC_Signal_big.cfg")]
 
     def mc(mod, cfg):
-        r = vlib.tlc_mc(ctx, mod, cfg, workers=8, coverage=cov, timeout=3000)
+        r = mc_run(ctx, mod, cfg, workers=8, coverage=cov, timeout=3000, xmx="2g")
         if cov:
             c = {}
             for m in re.finditer(r"<(\w+) line \d+, col \d+ to line \d+, col \d+ of module \w+(?: \([\d ]+\))?>: (\d+):(\d+)", r.out):
@@ -301,7 +354,7 @@ def model_check_jobs(ctx, thorough):
             ctx.extra.setdefault("action_coverage", {})[cfg] = {a: list(c[a]) for a in acts}
 
     def guard(mod, cfg, inv):
-        r = vlib.tlc(mod, cfg, workers=2)
+        r = tlc_run(mod, cfg, workers=2, xmx="1g")
         if inv not in r.invariant_violated:
             raise vlib.Infra("vacuity guard: %s/%s did not violate %s" % (mod, cfg, inv))
         ctx.extra.setdefault("vacuity_guards", []).append({"cfg": cfg, "violates": inv, "states": r.distinct})
@@ -311,7 +364,7 @@ def model_check_jobs(ctx, thorough):
 
 def emit_scripts(ctx, mod, cfg, minimum):
     """Model-check mod/cfg (all invariants) and collect the operation scripts its CONSTRAINT prints."""
-    r = vlib.tlc_mc(ctx, mod, cfg, workers=4, timeout=3000)
+    r = mc_run(ctx, mod, cfg, workers=4, timeout=3000)
     scripts = vlib._verdict_lines(r.out).get("SCRIPT", [])
     scripts = [s for s in scripts if isinstance(s, list)]
     if len(scripts) < minimum:
@@ -331,7 +384,7 @@ def run(ctx):
         lambda: out.__setitem__("sigs", emit_scripts(ctx, "Signal", "MC_Signal.cfg", 1000)),
         lambda: out.__setitem__("binary", build()),
     ]
-    vlib.parallel(lambda f: f(), jobs, workers=8)
+    vlib.parallel(lambda f: f(), jobs, workers=6)
     ctx.mc_runs.sort(key=lambda r: (r["module"], r["cfg"]))
     ctx.extra["vacuity_guards"].sort(key=lambda g: g["cfg"])
     small, big, sigs, binary = out["small"], out["big"], out["sigs"], out["binary"]
